@@ -379,11 +379,52 @@ def mk_symbols(st, tag, parent=None, level=None):
     return o, refs, loads, stores
 
 
+F_NORM = z3.Function("unicodedata.normalize.NFKC", OBJ, OBJ)
+F_ENC = z3.Function("str.encode", OBJ, OBJ)
+F_HEX = z3.Function("bytes.hex", OBJ, STR)
+
+
 def ident_term(level, name_t):
-    """the identifier _define_ref builds: f"l_{level}_{name}" - the term the interpreter produces for the real f-string"""
+    """the identifier _define_ref builds - the term the interpreter produces for the real code: f"l_{level}_{name}", or, for a
+    name that changes under NFKC normalisation, f"l_{level}_0{name.encode().hex()}" (normalize / encode / hex uninterpreted)"""
     from pyvc import models
     lv = models.py_str_int(level.t) if isinstance(level, Sym) else z3.StringVal(str(level))
-    return z3.Concat(z3.StringVal("l_"), lv, z3.StringVal("_"), models.py_str_obj(name_t))
+    plain = z3.Concat(z3.StringVal("l_"), lv, z3.StringVal("_"), models.py_str_obj(name_t))
+    spelled = z3.Concat(z3.StringVal("l_"), lv, z3.StringVal("_0"), F_HEX(F_ENC(name_t)))
+    return z3.If(F_NORM(name_t) != name_t, spelled, plain)
+
+
+def name_specs(I):
+    """dependency specs for the operations _define_ref applies to a (symbolic, atom-valued) name"""
+    import unicodedata
+    from pyvc.values import BoundMethod
+    from pyvc.smt import to_term
+
+    def normalize(I_, st, args, kwargs, node):
+        if args[0] != "NFKC":
+            raise Unsupported("normalize with another form", node)
+        return [(st, Sym(F_NORM(to_term(args[1], "obj")), "obj"))]
+
+    I.specs[("fn", id(unicodedata.normalize))] = normalize
+    base_ga = I.specs.get("getattr_obj")
+
+    def getattr_obj(I_, st, args, kwargs, node):
+        if args[1] in ("encode", "hex"):
+            return [(st, BoundMethod(args[0], args[1]))]
+        return base_ga(I_, st, args, kwargs, node) if base_ga is not None else None
+
+    I.specs["getattr_obj"] = getattr_obj
+    base_m = I.specs.get("method_obj")
+
+    def method_obj(I_, st, args, kwargs, node):
+        o, name = args[0], args[1]
+        if name == "encode" and len(args) == 2:
+            return [(st, Sym(F_ENC(o.t), "obj"))]
+        if name == "hex" and len(args) == 2:
+            return [(st, Sym(F_HEX(o.t), "str"))]
+        return base_m(I_, st, args, kwargs, node) if base_m is not None else None
+
+    I.specs["method_obj"] = method_obj
 
 
 def inv_terms(st, refs, loads, stores, level):
@@ -438,6 +479,7 @@ def branch_update_lemma(task, tier, seed):
         I = Interp()
         I.inline.add("jinja2.idtracking:Symbols.find_ref")
         set_specs(I)
+        name_specs(I)
         st = State()
         level = sym("level", "int")
         parent = None
@@ -553,6 +595,7 @@ def symbols_inv(method):
             I.inline.add("jinja2.idtracking:Symbols._define_ref")
             I.inline.add("jinja2.idtracking:Symbols.find_ref")
             set_specs(I)
+            name_specs(I)
             st = State()
             level = sym("level", "int")
             parent = None
